@@ -12,7 +12,7 @@
 // normal output has exactly one group.
 //
 // Case: {"units": [text, ...], "pre": text of ground facts put into the caller's store,
-//        "stores": [...], "det": [false,true], "repeat": n, "temporal": bool,
+//        "stores": [kind | "rerun:"kind | "tee-over:"kind | "merged-over:"kind, ...], "det": [false,true], "repeat": n, "temporal": bool,
 //        "now": evaluation time (ns), "limit": created-fact limit, "timeout_ms": guard}
 // Out:  {"stage": "ok"|"parse"|"analysis", "msg": .., "runs": n,
 //        "groups": [{"configs": [...], "n": k, "err": "", "facts": [{"p","args","iv"}]}]}
@@ -244,6 +244,15 @@ func runOnce(c *c05Case, kind string, det bool, pre []ast.Atom) runRes {
 	if err != nil {
 		return runRes{stage: "analysis", g: c05Group{Msg: err.Error()}}
 	}
+	// Store configurations in which the caller's store already holds what the program is
+	// going to derive: "rerun:K" (EvalProgram twice on the same store K), "tee-over:K" /
+	// "merged-over:K" (after a first evaluation on K, K becomes the read-only base of a
+	// TeeingStore / the read part of a MergedStore and the program is evaluated again on
+	// that store; the facts are read back from the stacked store).
+	wrap := ""
+	if i := strings.Index(kind, ":"); i >= 0 {
+		wrap, kind = kind[:i], kind[i+1:]
+	}
 	store, err := newStore(kind, pre)
 	if err != nil {
 		return runRes{g: c05Group{Err: "harness", Msg: err.Error()}}
@@ -271,7 +280,23 @@ func runOnce(c *c05Case, kind string, det bool, pre []ast.Atom) runRes {
 				ch <- res{pan: fmt.Sprint(p)}
 			}
 		}()
-		ch <- res{err: engine.EvalProgram(info, store, opts...)}
+		err := engine.EvalProgram(info, store, opts...)
+		if err == nil && wrap != "" {
+			switch wrap {
+			case "rerun":
+			case "tee-over":
+				store = factstore.NewTeeingStore(store)
+			case "merged-over":
+				w := factstore.NewSimpleInMemoryStore()
+				store = factstore.NewMergedStore([]factstore.ReadOnlyFactStore{store}, &w)
+			default:
+				err = fmt.Errorf("harness: unknown store wrapper %q", wrap)
+			}
+			if err == nil {
+				err = engine.EvalProgram(info, store, opts...)
+			}
+		}
+		ch <- res{err: err}
 	}()
 	select {
 	case r := <-ch:
